@@ -134,3 +134,155 @@ Proof.
   - repeat constructor; unfold in_era, time_sec, ntp_epoch, nanos_per_sec; cbn; lia.
   - eexists. eexists. split; [vm_compute; reflexivity|]. vm_compute. reflexivity.
 Qed.
+
+(* ===========================================================================
+   The priority queue made concrete (Model/TssHeap.v): the array tssQ driven by
+   Go's container/heap - Push = append + up, Pop = Swap(0,n-1) + down + drop last,
+   Remove(i) = Swap(i,n-1) + (down or else up) + drop last, Fix(i) = down or else
+   up, Less = qval.Before, Swap rewriting the two qidx back-pointers - and
+   handleRequest / updateTXTimestamp issuing the heap calls of the code
+   (handle_h, update_tx_h: Push on insert, Pop on eviction, Fix after a qval
+   change, Remove when an item goes).  An array slot is (client, queue value);
+   h_bp is the table of the items' qidx fields.
+     heap_valid a : heap order of the array (below: no slot smaller than its parent)
+     bp_ok h      : every slot's client has qidx = the index of that slot
+     wf h         : bp_ok h and the clients in the array are pairwise distinct
+     Rel sh s     : the concrete store sh represents the store s of Tss.v: same
+                    items, array = a permutation of hq s, heap_valid, bp_ok
+   =========================================================================== *)
+From ST Require Import Model.TssHeap Proofs.TssHeapProofs.
+From Coq Require Import Permutation.
+
+(* the loops of container/heap run on fuel; the fuel given is never exhausted *)
+Theorem C07_heap_fuel : forall h i j n,
+  up_f (S j) h j <> None /\ down_f (S (n - i)) h i n <> None.
+Proof. intros h i j n. split; [apply up_fuel|apply down_fuel]. Qed.
+Print Assumptions C07_heap_fuel.
+
+(* heap_valid is the usual heap order: no element is smaller than its parent *)
+Theorem C07_heap_valid_means : forall a,
+  heap_valid a <->
+  forall j, (0 < j < length a)%nat -> snd (nth ((j - 1) / 2) a hd0) <= snd (nth j a hd0).
+Proof. intros a. exact (heap_n_parent a (length a)). Qed.
+Print Assumptions C07_heap_valid_means.
+
+(* every container/heap call made on a valid heap leaves a valid heap with the
+   right back-pointers and exactly the expected contents; Pop returns the root
+   and Remove(i) the slot i *)
+Theorem C07_heap_ops_valid : forall h,
+  wf h -> heap_valid (h_arr h) ->
+  (forall k v, ~ In k (map fst (h_arr h)) ->
+     wf (hpush h (k, v)) /\ heap_valid (h_arr (hpush h (k, v))) /\
+     Permutation (h_arr (hpush h (k, v))) ((k, v) :: h_arr h)) /\
+  (h_arr h <> [] ->
+     snd (hpop h) = nth 0 (h_arr h) hd0 /\ wf (fst (hpop h)) /\ heap_valid (h_arr (fst (hpop h))) /\
+     Permutation (snd (hpop h) :: h_arr (fst (hpop h))) (h_arr h)) /\
+  (forall i, (i < length (h_arr h))%nat ->
+     snd (hremove h i) = nth i (h_arr h) hd0 /\ wf (fst (hremove h i)) /\ heap_valid (h_arr (fst (hremove h i))) /\
+     Permutation (snd (hremove h i) :: h_arr (fst (hremove h i))) (h_arr h)) /\
+  (forall i v, (i < length (h_arr h))%nat ->
+     let k := fst (nth i (h_arr h) hd0) in
+     wf (hfix (hset_qval h k v) i) /\ heap_valid (h_arr (hfix (hset_qval h k v) i)) /\
+     Permutation (h_arr (hfix (hset_qval h k v) i)) (hq_fix k v (h_arr h))).
+Proof.
+  intros h Hwf Hh. split; [intros k v Hf; apply hpush_spec; assumption|].
+  split; [intros Hne; apply hpop_spec; assumption|].
+  split; [intros i Hi; apply hremove_spec; assumption|].
+  intros i v Hi k. apply hset_fix_spec; try assumption. reflexivity.
+Qed.
+Print Assumptions C07_heap_ops_valid.
+
+(* what heap.Pop returns is the root of the array, and the root is a least
+   recently active client: the side condition "victim must be a minimum" of
+   Tss.handle is a theorem about the array heap *)
+Theorem C07_pop_is_minimum : forall c sh s,
+  Rel sh s -> Inv c s -> h_arr (hs_heap sh) <> [] ->
+  snd (hpop (hs_heap sh)) = nth 0 (h_arr (hs_heap sh)) hd0 /\
+  fst (snd (hpop (hs_heap sh))) = root_key (hs_heap sh) /\
+  hq_find (root_key (hs_heap sh)) (hq s) = Some (snd (snd (hpop (hs_heap sh)))) /\
+  hq_min_val (hq s) = Some (snd (snd (hpop (hs_heap sh)))) /\
+  forall x, In x (hq s) -> snd (snd (hpop (hs_heap sh))) <= snd x.
+Proof. exact pop_is_minimum. Qed.
+Print Assumptions C07_pop_is_minimum.
+
+(* REFINEMENT, one operation: on a concrete store representing s, handleRequest
+   with the real heap calls behaves as Tss.handle on s with victim = the root
+   popped: same reply, same reported times, same eviction/stateless outcome, and
+   the new concrete store represents the new abstract store (same items) *)
+Theorem C07_heap_refines : forall c sh s cid q rxt now,
+  Rel sh s -> Inv c s ->
+  match handle_h c sh cid q rxt now with
+  | Some oh => exists out, handle c s cid q rxt now (root_key (hs_heap sh)) = Some out /\
+      Rel (ho_state oh) (o_state out) /\ ho_reply oh = o_reply out /\ ho_rxt oh = o_rxt out /\
+      ho_txt oh = o_txt out /\ ho_evicted oh = o_evicted out /\ ho_stateless oh = o_stateless out
+  | None => handle c s cid q rxt now (root_key (hs_heap sh)) = None
+  end.
+Proof. exact handle_h_refines. Qed.
+Print Assumptions C07_heap_refines.
+
+Theorem C07_heap_refines_tx : forall c sh s cid rxt txt,
+  Rel sh s -> Inv c s ->
+  Rel (ht_state (update_tx_h sh cid rxt txt)) (t_state (update_tx s cid rxt txt)) /\
+  ht_txt (update_tx_h sh cid rxt txt) = t_txt (update_tx s cid rxt txt) /\
+  ht_removed_item (update_tx_h sh cid rxt txt) = t_removed_item (update_tx s cid rxt txt) /\
+  ht_removed_entry (update_tx_h sh cid rxt txt) = t_removed_entry (update_tx s cid rxt txt) /\
+  ht_updated (update_tx_h sh cid rxt txt) = t_updated (update_tx s cid rxt txt).
+Proof. exact update_tx_h_refines. Qed.
+Print Assumptions C07_heap_refines_tx.
+
+(* with the victim supplied by the array heap the request handler always answers
+   (Tss.handle can only fail on a victim that is not a minimum) *)
+Theorem C07_heap_defined : forall k c sh s cid q rxt now,
+  0 < icap c -> Rel sh s -> Inv c s ->
+  in_era k rxt -> in_era k (rxt + icap c + 1) -> in_era k now ->
+  handle_h c sh cid q rxt now <> None.
+Proof. intros k c sh s cid q rxt now Hi. exact (handle_h_defined k c Hi sh s cid q rxt now). Qed.
+Print Assumptions C07_heap_defined.
+
+(* REFINEMENT, all histories: every history runs to completion on the concrete
+   store; the array is in heap order, every back-pointer is right, and the store
+   reached represents (same items; array = permutation of the abstract queue) a
+   state reachable in Tss.v - so C06 and C07_bounds .. C07_evict_min_only hold of
+   the items of the concrete store *)
+Theorem C07_heap_valid : forall k c ops,
+  0 < icap c -> 0 <= cap c -> Forall (op_in_era k c) ops ->
+  exists sh, run_h c tssh_empty ops = Some sh /\
+    (forall j, (0 < j < length (h_arr (hs_heap sh)))%nat ->
+       snd (nth ((j - 1) / 2) (h_arr (hs_heap sh)) hd0) <= snd (nth j (h_arr (hs_heap sh)) hd0)) /\
+    (forall i, (i < length (h_arr (hs_heap sh)))%nat ->
+       bp_get (fst (nth i (h_arr (hs_heap sh)) hd0)) (h_bp (hs_heap sh)) = i) /\
+    exists s log, reachable k c s log /\ hs_items sh = items s /\ Permutation (h_arr (hs_heap sh)) (hq s).
+Proof.
+  intros k c ops Hi Hc Hera. destruct (heap_run k c Hi ops Hc Hera) as [sh [s [log [Hrun [Hreach [Hit [Hp [Hh Hbp]]]]]]]].
+  exists sh. split; [exact Hrun|]. split; [apply C07_heap_valid_means; exact Hh|]. split; [exact Hbp|].
+  exists s, log. auto.
+Qed.
+Print Assumptions C07_heap_valid.
+
+(* ... for instance: the array holds exactly one slot per client, carrying that
+   client's current queue value, and the bounds of C07_bounds hold *)
+Theorem C07_heap_array_is_index : forall k c ops sh,
+  0 < icap c -> 0 <= cap c -> Forall (op_in_era k c) ops -> run_h c tssh_empty ops = Some sh ->
+  Permutation (h_arr (hs_heap sh)) (map (fun it => (it_key it, it_qval it)) (hs_items sh)) /\
+  NoDup (map it_key (hs_items sh)) /\
+  Z.of_nat (length (hs_items sh)) <= cap c /\
+  forall it, In it (hs_items sh) -> (1 <= length (it_ents it))%nat /\ Z.of_nat (length (it_ents it)) <= icap c.
+Proof.
+  intros k c ops sh Hi Hc Hera Hrun. destruct (heap_run k c Hi ops Hc Hera) as [sh' [s [log [Hrun' [Hreach [Hit [Hp _]]]]]]].
+  assert (sh' = sh) by congruence. subst sh'.
+  destruct (C07_index_agrees k c s log Hi Hc Hreach) as [Hhq Hnd].
+  destruct (C07_bounds k c s log Hi Hc Hreach) as [Hb1 Hb2].
+  rewrite Hit. rewrite <- Hhq. auto.
+Qed.
+Print Assumptions C07_heap_array_is_index.
+
+(* non-vacuity: the history of C07_evicts_minimum on the concrete store - the pop
+   of the full store removes client 1 (the root), the array is [(2,_); (3,_)] *)
+Example C07_heap_evicts_root :
+  let c := {| cap := 2; icap := 8 |} in
+  let t := 1717171717000000000 in
+  let rq := {| q_org := 0; q_rx := 5; q_tx := 5 |} in
+  let ops := [OpHandle 1 rq t (t + 10) 0; OpHandle 2 rq (t + 100) (t + 110) 0; OpHandle 3 rq (t + 200) (t + 210) 0] in
+  exists sh, run_h c tssh_empty ops = Some sh /\ map it_key (hs_items sh) = [3; 2] /\
+             map fst (h_arr (hs_heap sh)) = [2; 3] /\ map (fun kv => bp_get (fst kv) (h_bp (hs_heap sh))) (h_arr (hs_heap sh)) = [0%nat; 1%nat].
+Proof. cbv zeta. eexists. split; [vm_compute; reflexivity|]. vm_compute. auto. Qed.
